@@ -246,3 +246,30 @@ PROPS["C17"] = dict(
     assumptions=["parser options and output builder agree on num_attributes (documented precondition)",
                  "finite numbers with |exponent| small enough to stay in the normal f32 range in the model comparison"],
 )
+
+PROPS["C20"] = dict(
+    level="proof",
+    level_text="Theorems (Props/C20.v) about a statement-level model of the hatcher at angle 0, for ALL polygonal paths, offset "
+               "sequences and uv origins (structural ones for ANY abscissa function and any monotone addition): events are "
+               "oriented, non-degenerate and sorted; on every hatched row the active edges that cross the row (half-open "
+               "rule) are exactly the path's edges crossing it (the lazy sweep-line never loses or invents one); the emitted "
+               "segments are the consecutive pairs of the sorted crossing abscissae, with the stated u/v/row values; the k-th "
+               "row is at first.y + o_0 + ... + o_k; with the exact abscissa a point of the row lies in a segment iff an odd "
+               "number of crossings are to its left (even-odd interior); paths without edges give no output. The model is "
+               "bit-exact (f32 operation sequence) and compared segment-by-segment with Hatcher on lattice paths. Other "
+               "angles, curved paths and dot patterns are validated per run against an independent even-odd test.",
+    level_note="Trusted: Coq kernel; Base/F32.v; rotation by the hatching angle (euclid Rotation) is not modelled - angle 0 "
+               "only in the theorems, other angles validated; dots validated; flattening of curves is C09's subject.",
+    technique="Coq proof (sweep invariants, stable sort, parity of sorted crossings) + exact differential correspondence",
+    coq_targets=["theories/Props/C20.vo", "theories/Run/C20.vo"],
+    props_file="theories/Props/C20.v",
+    props_module="Props.C20",
+    harness=[dict(sub="c20", profile="debug")],
+    rule="random lattice paths (0..3 sub-paths of 1..6 points in [-4,8]^2, open and closed, 1 in 10 empty) hatched at angle "
+         "0 with random offset sequences from {0.25, 0.375, 0.5, 0.7, 1/3, 1, 2.5} and random uv origins, compared exactly; "
+         "every third iteration a curved path at a random angle with regular hatches and dots checked against the hit test; "
+         "empty / single-point inputs; non-trivial = at least one segment emitted",
+    trusted_base=["Model/Hatch.v follows hatching.rs (EventsBuilder, hatch, update_sweep_line, hatch_line) at angle 0"],
+    assumptions=["offsets returned by the pattern are positive until it stops (a non-positive offset ends the hatching)",
+                 "f32 addition is monotone (a <= a + o for o > 0)"],
+)
